@@ -193,7 +193,10 @@ def run(tier: str, replay=None) -> int:
                        "trusted: TLC, CommunityModules Json"]
     if replay:
         r = replay["replay"]
-        if r["engine"] == "c09-unit":
+        if r["engine"] == "c09-trace":
+            from . import c09_trace
+            c09_trace.replay(chk, r)
+        elif r["engine"] == "c09-unit":
             got = unit_align(r["axes"], r["tol"], r["method"])
             if got not in set(r["allowed"]):
                 chk.violation(replay["key"], f"implementation gives {got}; specification allows {r['allowed']}", r)
@@ -235,4 +238,6 @@ def run(tier: str, replay=None) -> int:
             e2e_check(chk, json.loads(axes_s), tol, method, allowed[(axes_s, tol, method)], rng)
         k = keys[len(keys) // 3]
         chk.sample({"axes": json.loads(k[0]), "tol": k[1], "method": k[2], "allowed": sorted(allowed[k])})
+    from . import c09_trace
+    c09_trace.run(chk, tier)        # code -> spec: recorded alignments of real providers (driver beyond the bounds + repository tests)
     return chk.finish()
